@@ -41,12 +41,11 @@ Definition names (deps : list (ident * path)) : list str := map dep_name deps.
 Definition wanted (f : fs) (dp : ident * path) : bool :=
   fs_is_dir f (snd dp) && fs_nonempty f (snd dp).
 
-(* an entry the loop can deal with: none, or a link that leads somewhere *)
-Definition entry_ok (f : fs) (out : path) (o : option entry) : Prop :=
+(* an entry the loop can deal with: none, or a link Conductor made (dangling or not) *)
+Definition entry_ok (co out : path) (n : str) (o : option entry) : Prop :=
   match o with
   | None => True
-  | Some (Link t) => fs_exists f (link_dest out t) = true
-  | Some Other => False
+  | Some e => replaceable co out n e = true
   end.
 
 Lemma skip_test f dp :
@@ -62,28 +61,25 @@ Proof. intros H. inversion H; subst. auto. Qed.
 
 Section Loop.
   Variable f : fs.
+  Variable co : path.
   Variable out : path.
 
   (* one unfolding of the loop, by cases *)
   Lemma loop_cons id dir rest d :
-    combine_loop f out ((id, dir) :: rest) d =
-    if negb (wanted f (id, dir)) then combine_loop f out rest d
+    combine_loop f co out ((id, dir) :: rest) d =
+    if negb (wanted f (id, dir)) then combine_loop f co out rest d
     else match lookup (iname id) d with
          | Some e =>
-           if entry_exists f out e then
-             match e with
-             | Link _ => combine_loop f out rest
-                           (add (iname id) (Link (relpath out dir)) (remove (iname id) d))
-             | Other => (ConflictAt (iname id), d)
-             end
-           else (FileExistsAt (iname id), d)
-         | None => combine_loop f out rest (add (iname id) (Link (relpath out dir)) d)
+           if replaceable co out (iname id) e then
+             combine_loop f co out rest (add (iname id) (Link (relpath out dir)) (remove (iname id) d))
+           else (ConflictAt (iname id), d)
+         | None => combine_loop f co out rest (add (iname id) (Link (relpath out dir)) d)
          end.
   Proof. cbn [combine_loop]. unfold wanted. cbn [snd]. rewrite negb_andb. reflexivity. Qed.
 
   (* names that are not dependency names are never touched, whatever the outcome *)
   Lemma loop_frame n deps : forall d,
-    ~ In n (names deps) -> lookup n (snd (combine_loop f out deps d)) = lookup n d.
+    ~ In n (names deps) -> lookup n (snd (combine_loop f co out deps d)) = lookup n d.
   Proof.
     induction deps as [|[id dir] rest IH]; intros d Hn; [reflexivity|].
     rewrite loop_cons. simpl in Hn.
@@ -91,49 +87,32 @@ Section Loop.
     assert (Hrest : ~ In n (names rest)) by (intros H; apply Hn; right; exact H).
     destruct (negb (wanted f (id, dir))); [now apply IH|].
     destruct (lookup (iname id) d) as [e|] eqn:El.
-    - destruct (entry_exists f out e); [|reflexivity].
-      destruct e; [|reflexivity].
+    - destruct (replaceable co out (iname id) e); [|reflexivity].
       rewrite IH by assumption. now apply lookup_relink_other.
     - rewrite IH by assumption. now apply lookup_add_other.
   Qed.
 
-  (* an entry that is not a link is never changed, whatever the outcome *)
-  Lemma loop_other n deps : forall d,
-    lookup n d = Some Other -> lookup n (snd (combine_loop f out deps d)) = Some Other.
+  (* an entry the loop may not replace -- a non-link, or somebody else's link -- is never
+     changed, whatever the outcome *)
+  Lemma loop_kept n e deps : forall d,
+    lookup n d = Some e -> replaceable co out n e = false ->
+    lookup n (snd (combine_loop f co out deps d)) = Some e.
   Proof.
-    induction deps as [|[id dir] rest IH]; intros d Hn; [exact Hn|].
+    induction deps as [|[id dir] rest IH]; intros d Hn Hr; [exact Hn|].
     rewrite loop_cons.
     destruct (negb (wanted f (id, dir))); [now apply IH|].
     destruct (str_eq_dec n (iname id)) as [->|Hne].
-    - rewrite Hn. simpl. exact Hn.
-    - destruct (lookup (iname id) d) as [e|] eqn:El.
-      + destruct (entry_exists f out e); [|exact Hn].
-        destruct e; [|exact Hn].
-        apply IH. now rewrite lookup_relink_other.
-      + apply IH. now rewrite lookup_add_other.
-  Qed.
-
-  (* a dangling link is never changed either *)
-  Lemma loop_dangling n t deps : forall d,
-    lookup n d = Some (Link t) -> fs_exists f (link_dest out t) = false ->
-    lookup n (snd (combine_loop f out deps d)) = Some (Link t).
-  Proof.
-    induction deps as [|[id dir] rest IH]; intros d Hn Ht; [exact Hn|].
-    rewrite loop_cons.
-    destruct (negb (wanted f (id, dir))); [now apply IH|].
-    destruct (str_eq_dec n (iname id)) as [->|Hne].
-    - rewrite Hn. simpl. rewrite Ht. exact Hn.
-    - destruct (lookup (iname id) d) as [e|] eqn:El.
-      + destruct (entry_exists f out e); [|exact Hn].
-        destruct e; [|exact Hn].
-        apply IH; [|exact Ht]. now rewrite lookup_relink_other.
-      + apply IH; [|exact Ht]. now rewrite lookup_add_other.
+    - rewrite Hn, Hr. exact Hn.
+    - destruct (lookup (iname id) d) as [e0|] eqn:El.
+      + destruct (replaceable co out (iname id) e0); [|exact Hn].
+        apply IH; [|exact Hr]. now rewrite lookup_relink_other.
+      + apply IH; [|exact Hr]. now rewrite lookup_add_other.
   Qed.
 
   (* after a successful pass every wanted dependency is linked with the relpath text *)
   Lemma loop_links deps : forall d d',
     NoDup (names deps) ->
-    combine_loop f out deps d = (Done, d') ->
+    combine_loop f co out deps d = (Done, d') ->
     forall id dir, In (id, dir) deps -> wanted f (id, dir) = true ->
     lookup (iname id) d' = Some (Link (relpath out dir)).
   Proof.
@@ -142,62 +121,60 @@ Section Loop.
     rewrite loop_cons in Hrun.
     destruct (wanted f (id0, dir0)) eqn:Hw0; simpl in Hrun.
     - assert (Hhead : forall d1,
-                combine_loop f out rest (add (iname id0) (Link (relpath out dir0)) d1) = (Done, d') ->
-                lookup (iname id0) d1 = None \/ True ->
+                combine_loop f co out rest (add (iname id0) (Link (relpath out dir0)) d1) = (Done, d') ->
                 lookup (iname id) d' = Some (Link (relpath out dir))).
-      { intros d1 Hrun1 _. destruct Hin as [Heq|Hin].
+      { intros d1 Hrun1. destruct Hin as [Heq|Hin].
         - inversion Heq; subst id0 dir0.
           pose proof (loop_frame (iname id) rest (add (iname id) (Link (relpath out dir)) d1) Hnotin) as Hf.
           rewrite Hrun1 in Hf. simpl in Hf. rewrite Hf. apply lookup_add_same.
         - eapply IH; eauto. }
       destruct (lookup (iname id0) d) as [e|] eqn:El.
-      + destruct (entry_exists f out e); [|discriminate].
-        destruct e; [|discriminate].
-        eapply Hhead; [exact Hrun | right; exact I].
-      + eapply Hhead; [exact Hrun | right; exact I].
+      + destruct (replaceable co out (iname id0) e); [|discriminate].
+        eapply Hhead; exact Hrun.
+      + eapply Hhead; exact Hrun.
     - destruct Hin as [Heq|Hin].
       + inversion Heq; subst. congruence.
       + eapply IH; eauto.
   Qed.
 
-  (* if every wanted dependency finds its name free or held by a live link, the pass succeeds *)
+  (* if every wanted dependency finds its name free or held by a link Conductor made, the pass succeeds *)
   Lemma loop_done deps : forall d,
     NoDup (names deps) ->
-    (forall dp, In dp deps -> wanted f dp = true -> entry_ok f out (lookup (dep_name dp) d)) ->
-    fst (combine_loop f out deps d) = Done.
+    (forall dp, In dp deps -> wanted f dp = true -> entry_ok co out (dep_name dp) (lookup (dep_name dp) d)) ->
+    fst (combine_loop f co out deps d) = Done.
   Proof.
     induction deps as [|[id0 dir0] rest IH]; intros d Hnd Hok; [reflexivity|].
     destruct (nodup_names_cons _ _ _ Hnd) as [Hnotin Hnd'].
     rewrite loop_cons.
     assert (Hrest : forall d1,
               (forall n, n <> iname id0 -> lookup n d1 = lookup n d) ->
-              fst (combine_loop f out rest d1) = Done).
+              fst (combine_loop f co out rest d1) = Done).
     { intros d1 Hsame. apply IH; [assumption|]. intros dp Hin Hw.
       rewrite Hsame; [apply Hok; [right; exact Hin | exact Hw]|].
       intros E. apply Hnotin. rewrite <- E. now apply in_names. }
     destruct (wanted f (id0, dir0)) eqn:Hw0; simpl.
     - specialize (Hok (id0, dir0) (or_introl eq_refl) Hw0). unfold dep_name in Hok. simpl in Hok.
       destruct (lookup (iname id0) d) as [e|] eqn:El.
-      + destruct e as [t|]; [|destruct Hok]. simpl in Hok. simpl. rewrite Hok.
+      + simpl in Hok. rewrite Hok.
         apply Hrest. intros n Hn. now apply lookup_relink_other.
       + apply Hrest. intros n Hn. now apply lookup_add_other.
     - apply Hrest. reflexivity.
   Qed.
 
-  (* a non-link entry under a wanted dependency's name makes the pass fail *)
-  Lemma loop_conflict deps : forall d id dir,
-    In (id, dir) deps -> wanted f (id, dir) = true -> lookup (iname id) d = Some Other ->
-    fst (combine_loop f out deps d) <> Done.
+  (* an entry that may not be replaced under a wanted dependency's name makes the pass fail *)
+  Lemma loop_conflict deps : forall d id dir e,
+    In (id, dir) deps -> wanted f (id, dir) = true ->
+    lookup (iname id) d = Some e -> replaceable co out (iname id) e = false ->
+    fst (combine_loop f co out deps d) <> Done.
   Proof.
-    induction deps as [|[id0 dir0] rest IH]; intros d id dir Hin Hw Hl; [destruct Hin|].
+    induction deps as [|[id0 dir0] rest IH]; intros d id dir e Hin Hw Hl Hr; [destruct Hin|].
     rewrite loop_cons.
     destruct (wanted f (id0, dir0)) eqn:Hw0; simpl.
     - destruct (str_eq_dec (iname id) (iname id0)) as [E|Hne].
-      + rewrite <- E, Hl. simpl. discriminate.
+      + rewrite <- E, Hl, Hr. simpl. discriminate.
       + destruct Hin as [Heq|Hin]; [inversion Heq; subst; congruence|].
-        destruct (lookup (iname id0) d) as [e|] eqn:El.
-        * destruct (entry_exists f out e); [|simpl; discriminate].
-          destruct e; [|simpl; discriminate].
+        destruct (lookup (iname id0) d) as [e0|] eqn:El.
+        * destruct (replaceable co out (iname id0) e0); [|simpl; discriminate].
           eapply IH; eauto. now rewrite lookup_relink_other.
         * eapply IH; eauto. now rewrite lookup_add_other.
     - destruct Hin as [Heq|Hin]; [inversion Heq; subst; congruence|].
@@ -205,21 +182,22 @@ Section Loop.
   Qed.
 
   (* ... and when it is the only obstacle, the error names exactly that entry *)
-  Lemma loop_conflict_exact deps : forall d id dir,
+  Lemma loop_conflict_exact deps : forall d id dir e,
     NoDup (names deps) ->
-    In (id, dir) deps -> wanted f (id, dir) = true -> lookup (iname id) d = Some Other ->
+    In (id, dir) deps -> wanted f (id, dir) = true ->
+    lookup (iname id) d = Some e -> replaceable co out (iname id) e = false ->
     (forall dp, In dp deps -> wanted f dp = true -> dep_name dp <> iname id ->
-                entry_ok f out (lookup (dep_name dp) d)) ->
-    fst (combine_loop f out deps d) = ConflictAt (iname id).
+                entry_ok co out (dep_name dp) (lookup (dep_name dp) d)) ->
+    fst (combine_loop f co out deps d) = ConflictAt (iname id).
   Proof.
-    induction deps as [|[id0 dir0] rest IH]; intros d id dir Hnd Hin Hw Hl Hok; [destruct Hin|].
+    induction deps as [|[id0 dir0] rest IH]; intros d id dir e Hnd Hin Hw Hl Hr Hok; [destruct Hin|].
     destruct (nodup_names_cons _ _ _ Hnd) as [Hnotin Hnd'].
     rewrite loop_cons.
     assert (Hrest : forall d1,
               In (id, dir) rest ->
               (forall n, n <> iname id0 -> lookup n d1 = lookup n d) ->
               iname id <> iname id0 ->
-              fst (combine_loop f out rest d1) = ConflictAt (iname id)).
+              fst (combine_loop f co out rest d1) = ConflictAt (iname id)).
     { intros d1 Hin1 Hsame Hne. eapply IH; eauto.
       - now rewrite Hsame.
       - intros dp Hdp Hwdp Hnedp. rewrite Hsame.
@@ -229,38 +207,17 @@ Section Loop.
     { intros Hin1 E. apply Hnotin. rewrite <- E. exact (in_names (id, dir) rest Hin1). }
     destruct (wanted f (id0, dir0)) eqn:Hw0; simpl.
     - destruct (str_eq_dec (iname id) (iname id0)) as [E|Hne].
-      + rewrite <- E, Hl. reflexivity.
+      + rewrite <- E, Hl, Hr. reflexivity.
       + destruct Hin as [Heq|Hin]; [inversion Heq; subst; congruence|].
         assert (Hok0 := Hok (id0, dir0) (or_introl eq_refl) Hw0).
         unfold dep_name in Hok0. simpl in Hok0.
         specialize (Hok0 (fun E => Hne (eq_sym E))).
-        destruct (lookup (iname id0) d) as [e|] eqn:El.
-        * destruct e as [t|]; [|destruct Hok0]. simpl in Hok0. simpl. rewrite Hok0.
+        destruct (lookup (iname id0) d) as [e0|] eqn:El.
+        * simpl in Hok0. rewrite Hok0.
           apply Hrest; auto. intros n Hn. now apply lookup_relink_other.
         * apply Hrest; auto. intros n Hn. now apply lookup_add_other.
     - destruct Hin as [Heq|Hin]; [inversion Heq; subst; congruence|].
       apply Hrest; auto.
-  Qed.
-
-  (* a dangling link under a wanted dependency's name makes the pass fail as well *)
-  Lemma loop_dangling_fails deps : forall d id dir t,
-    In (id, dir) deps -> wanted f (id, dir) = true ->
-    lookup (iname id) d = Some (Link t) -> fs_exists f (link_dest out t) = false ->
-    fst (combine_loop f out deps d) <> Done.
-  Proof.
-    induction deps as [|[id0 dir0] rest IH]; intros d id dir t Hin Hw Hl Ht; [destruct Hin|].
-    rewrite loop_cons.
-    destruct (wanted f (id0, dir0)) eqn:Hw0; simpl.
-    - destruct (str_eq_dec (iname id) (iname id0)) as [E|Hne].
-      + rewrite <- E, Hl. simpl. rewrite Ht. simpl. discriminate.
-      + destruct Hin as [Heq|Hin]; [inversion Heq; subst; congruence|].
-        destruct (lookup (iname id0) d) as [e|] eqn:El.
-        * destruct (entry_exists f out e); [|simpl; discriminate].
-          destruct e; [|simpl; discriminate].
-          eapply IH; eauto. now rewrite lookup_relink_other.
-        * eapply IH; eauto. now rewrite lookup_add_other.
-    - destruct Hin as [Heq|Hin]; [inversion Heq; subst; congruence|].
-      eapply IH; eauto.
   Qed.
 End Loop.
 
@@ -317,24 +274,24 @@ Proof.
 Qed.
 
 (* ---------- the whole task ---------- *)
-Lemma run_ran f out deps d o d' :
-  run_combine f out deps d = Ran o d' ->
+Lemma run_ran f co out deps d o d' :
+  run_combine f co out deps d = Ran o d' ->
   NoDup (names (plan_dep_paths deps)) /\
-  combine_loop f out (plan_dep_paths deps) (match d with Some d0 => d0 | None => [] end) = (o, d').
+  combine_loop f co out (plan_dep_paths deps) (match d with Some d0 => d0 | None => [] end) = (o, d').
 Proof.
   unfold run_combine, combine_step. intros H.
   destruct (ctor_check [] (map fst deps)) eqn:E; [discriminate|].
   apply ctor_check_nodup in E as [Hnd _].
-  destruct (combine_loop _ _ _ _) as [o1 d1] eqn:El. inversion H; subst.
+  destruct (combine_loop _ _ _ _ _) as [o1 d1] eqn:El. inversion H; subst.
   split; [now apply plan_nodup | reflexivity].
 Qed.
 
 Definition start_dir (d : option dirmap) : dirmap := match d with Some d0 => d0 | None => [] end.
 
-Lemma run_links f out deps d d' :
+Lemma run_links f co out deps d d' :
   clean out = true ->
   (forall i p, In (i, Some p) deps -> clean p = true) ->
-  run_combine f out deps d = Ran Done d' ->
+  run_combine f co out deps d = Ran Done d' ->
   forall id dir, In (id, Some dir) deps ->
     fs_is_dir f dir = true -> fs_nonempty f dir = true ->
     exists t, lookup (iname id) d' = Some (Link t) /\ link_dest out t = dir.
@@ -348,27 +305,27 @@ Proof.
   - unfold link_dest. apply relpath_resolves; [assumption | eauto].
 Qed.
 
-Lemma run_dup f out deps d n :
-  run_combine f out deps d = DuplicateDepName n <->
+Lemma run_dup f co out deps d n :
+  run_combine f co out deps d = DuplicateDepName n <->
   ctor_check [] (map fst deps) = Some n.
 Proof.
   unfold run_combine. destruct (ctor_check [] (map fst deps)) eqn:E.
   - split; congruence.
-  - destruct (combine_step f out (plan_dep_paths deps) d). split; discriminate.
+  - destruct (combine_step f co out (plan_dep_paths deps) d). split; discriminate.
 Qed.
 
-Lemma run_distinct f out deps d o d' :
-  run_combine f out deps d = Ran o d' -> NoDup (map iname (map fst deps)).
+Lemma run_distinct f co out deps d o d' :
+  run_combine f co out deps d = Ran o d' -> NoDup (map iname (map fst deps)).
 Proof.
   unfold run_combine. destruct (ctor_check [] (map fst deps)) eqn:E; [discriminate|].
   intros _. now apply ctor_check_nodup in E as [H _].
 Qed.
 
-Lemma run_update f out deps d :
+Lemma run_update f co out deps d :
   ctor_check [] (map fst deps) = None ->
   (forall i p, In (i, Some p) deps -> fs_is_dir f p = true -> fs_nonempty f p = true ->
-               entry_ok f out (lookup (iname i) (start_dir d))) ->
-  exists d', run_combine f out deps d = Ran Done d' /\
+               entry_ok co out (iname i) (lookup (iname i) (start_dir d))) ->
+  exists d', run_combine f co out deps d = Ran Done d' /\
     forall id dir, In (id, Some dir) deps ->
       fs_is_dir f dir = true -> fs_nonempty f dir = true ->
       lookup (iname id) d' = Some (Link (relpath out dir)).
@@ -376,7 +333,7 @@ Proof.
   intros Hc Hok. unfold run_combine, combine_step. rewrite Hc.
   pose proof (ctor_check_nodup _ _ Hc) as [Hnd _]. apply plan_nodup in Hnd.
   fold (start_dir d).
-  destruct (combine_loop f out (plan_dep_paths deps) (start_dir d)) as [o d'] eqn:El.
+  destruct (combine_loop f co out (plan_dep_paths deps) (start_dir d)) as [o d'] eqn:El.
   assert (Ho : o = Done).
   { change o with (fst (o, d')). rewrite <- El. apply loop_done; [assumption|].
     intros [i p] Hin Hw. unfold dep_name. simpl. unfold wanted in Hw. simpl in Hw.
@@ -387,25 +344,25 @@ Proof.
   - unfold wanted. simpl. now rewrite Hd, Hn.
 Qed.
 
-Lemma run_conflict f out deps d id dir :
+Lemma run_conflict f co out deps d id dir e :
   ctor_check [] (map fst deps) = None ->
   In (id, Some dir) deps -> fs_is_dir f dir = true -> fs_nonempty f dir = true ->
-  lookup (iname id) (start_dir d) = Some Other ->
-  exists o d', run_combine f out deps d = Ran o d' /\ o <> Done /\
-    lookup (iname id) d' = Some Other /\
+  lookup (iname id) (start_dir d) = Some e -> replaceable co out (iname id) e = false ->
+  exists o d', run_combine f co out deps d = Ran o d' /\ o <> Done /\
+    lookup (iname id) d' = Some e /\
     ((forall i p, In (i, Some p) deps -> fs_is_dir f p = true -> fs_nonempty f p = true ->
-                  iname i <> iname id -> entry_ok f out (lookup (iname i) (start_dir d))) ->
+                  iname i <> iname id -> entry_ok co out (iname i) (lookup (iname i) (start_dir d))) ->
      o = ConflictAt (iname id)).
 Proof.
-  intros Hc Hin Hd Hn Hl. unfold run_combine, combine_step. rewrite Hc.
+  intros Hc Hin Hd Hn Hl Hr. unfold run_combine, combine_step. rewrite Hc.
   pose proof (ctor_check_nodup _ _ Hc) as [Hnd _]. apply plan_nodup in Hnd.
   fold (start_dir d).
-  destruct (combine_loop f out (plan_dep_paths deps) (start_dir d)) as [o d'] eqn:El.
+  destruct (combine_loop f co out (plan_dep_paths deps) (start_dir d)) as [o d'] eqn:El.
   assert (Hw : wanted f (id, dir) = true) by (unfold wanted; simpl; now rewrite Hd, Hn).
   assert (Hin' : In (id, dir) (plan_dep_paths deps)) by now apply plan_in.
   exists o, d'. split; [reflexivity|]. split; [|split].
   - change o with (fst (o, d')). rewrite <- El. eapply loop_conflict; eauto.
-  - change d' with (snd (o, d')). rewrite <- El. now apply loop_other.
+  - change d' with (snd (o, d')). rewrite <- El. now apply loop_kept.
   - intros Hok. change o with (fst (o, d')). rewrite <- El.
     eapply loop_conflict_exact; eauto.
     intros [i p] Hdp Hwdp Hne. unfold dep_name in *. simpl in *.
@@ -413,25 +370,8 @@ Proof.
     apply plan_in in Hdp. eauto.
 Qed.
 
-Lemma run_dangling f out deps d id dir t :
-  ctor_check [] (map fst deps) = None ->
-  In (id, Some dir) deps -> fs_is_dir f dir = true -> fs_nonempty f dir = true ->
-  lookup (iname id) (start_dir d) = Some (Link t) -> fs_exists f (link_dest out t) = false ->
-  exists o d', run_combine f out deps d = Ran o d' /\ o <> Done /\
-    lookup (iname id) d' = Some (Link t).
-Proof.
-  intros Hc Hin Hd Hn Hl Ht. unfold run_combine, combine_step. rewrite Hc.
-  fold (start_dir d).
-  destruct (combine_loop f out (plan_dep_paths deps) (start_dir d)) as [o d'] eqn:El.
-  assert (Hw : wanted f (id, dir) = true) by (unfold wanted; simpl; now rewrite Hd, Hn).
-  assert (Hin' : In (id, dir) (plan_dep_paths deps)) by now apply plan_in.
-  exists o, d'. split; [reflexivity|]. split.
-  - change o with (fst (o, d')). rewrite <- El. eapply loop_dangling_fails; eauto.
-  - change d' with (snd (o, d')). rewrite <- El. now apply loop_dangling.
-Qed.
-
-Lemma run_frame f out deps d o d' n :
-  run_combine f out deps d = Ran o d' ->
+Lemma run_frame f co out deps d o d' n :
+  run_combine f co out deps d = Ran o d' ->
   (forall i p, In (i, Some p) deps -> iname i <> n) ->
   lookup n d' = lookup n (start_dir d).
 Proof.
@@ -476,7 +416,7 @@ Section OutPath.
   Lemma run_links_project f root cid deps d d' :
     clean root = true -> WfIdent cid ->
     (forall i p, In (i, Some p) deps -> WfIdent i /\ exists v, p = abs_out root i v) ->
-    run_combine f (abs_out root cid None) deps d = Ran Done d' ->
+    run_combine f (cond_out_dir root) (abs_out root cid None) deps d = Ran Done d' ->
     forall id dir, In (id, Some dir) deps ->
       fs_is_dir f dir = true -> fs_nonempty f dir = true ->
       exists t, lookup (iname id) d' = Some (Link t) /\ link_dest (abs_out root cid None) t = dir.
@@ -486,3 +426,46 @@ Section OutPath.
     - intros i p Hin. destruct (Hdeps _ _ Hin) as (Hi & v & ->). now apply abs_out_clean.
   Qed.
 End OutPath.
+
+(* ---------- the links the loop makes are links Conductor made ----------
+   so what earlier runs of the same combine task left under a dependency's name -- a link to any
+   version of that dependency, whether that version's directory still exists or not -- satisfies
+   the precondition of run_update: re-running never conflicts with Conductor's own links. *)
+Section OwnLinks.
+  Hypothesis out_dir_clean : clean_comp cfg_OUTPUT_DIR = true.
+
+  Lemma last_snoc {A} (l : list A) x d : last (l ++ [x]) d = x.
+  Proof. apply last_last. Qed.
+
+  Lemma own_link_of_version root cid i v :
+    clean root = true -> WfIdent cid -> WfIdent i ->
+    is_conductor_link (cond_out_dir root) (abs_out root cid None) (iname i)
+                      (relpath (abs_out root cid None) (abs_out root i v)) = true.
+  Proof.
+    intros Hr Hc Hi. unfold is_conductor_link, link_dest.
+    rewrite relpath_resolves by (apply abs_out_clean; assumption).
+    assert (E : relative_to (cond_out_dir root) (abs_out root i v) = Some (ipath i ++ [task_output_dir i v])).
+    { apply relative_to_spec. unfold abs_out, cond_out_dir, out_path. rewrite <- app_assoc. reflexivity. }
+    rewrite E. destruct (ipath i ++ [task_output_dir i v]) as [|c rel] eqn:El; [destruct (ipath i); discriminate|].
+    rewrite <- El, last_snoc. unfold task_output_dir. destruct v as [t|].
+    - apply orb_true_iff. right. apply starts_with_spec. exists (dec t). now rewrite <- !app_assoc.
+    - apply orb_true_iff. left. rewrite app_nil_r. apply str_eqb_refl.
+  Qed.
+
+  (* ... hence: after any successful run, every entry made for a dependency is again replaceable,
+     whatever version the dependency has next time *)
+  Lemma made_links_replaceable f root cid deps d d' :
+    clean root = true -> WfIdent cid ->
+    (forall i p, In (i, Some p) deps -> WfIdent i /\ exists v, p = abs_out root i v) ->
+    run_combine f (cond_out_dir root) (abs_out root cid None) deps d = Ran Done d' ->
+    forall id dir, In (id, Some dir) deps -> fs_is_dir f dir = true -> fs_nonempty f dir = true ->
+    entry_ok (cond_out_dir root) (abs_out root cid None) (iname id) (lookup (iname id) d').
+  Proof.
+    intros Hr Hc Hdeps Hrun id dir Hin Hd Hn.
+    apply run_ran in Hrun as [Hnd Hloop].
+    assert (Hl : lookup (iname id) d' = Some (Link (relpath (abs_out root cid None) dir))).
+    { eapply loop_links; eauto; [now apply plan_in | unfold wanted; simpl; now rewrite Hd, Hn]. }
+    rewrite Hl. destruct (Hdeps _ _ Hin) as (Hi & v & ->). cbn [entry_ok replaceable].
+    now apply own_link_of_version.
+  Qed.
+End OwnLinks.
